@@ -643,6 +643,10 @@ def body(chk, db, cfgname):
     r7 = chk.rule("C13-R7", "the default component set, together with the exchange aliases set() adds, reaches every index quadruple: Index1 and Index3 run over all indices, Index2 / Index4 over all indices or from their partner upwards, nothing is filtered", "F1 full-range loops", 1)
     check_default_quadruples(r7, db, cfgname)
 
+    r8 = chk.rule("C13-R8", "the container key IndexCombination4 is ordered by a strict total order on (Index1..Index4), and its ==/!= agree with it: every index quadruple is its own entry", "F8 guards (comparator bodies evaluated on all pairs of a small domain)", 3)
+    from checks.orders import check_key_class
+    check_key_class(r8, db, cfgname, "Pomerol::IndexCombination4", ["Index1", "Index2", "Index3", "Index4"])
+
     chk.undecided.append("value-level equality with a directly constructed TwoParticleGF (follows from R1/R2 + C02); behaviour of createElement for unprepared operators")
 
 
